@@ -56,7 +56,11 @@ def o11(ctx):
             it.run(q, args, {}, self_obj=me)
             ev = _write_event(it)
             mm, _ = ctx.prog.func(ev.fn)
-            _check_payload(ctx, q, label, ev, mm)
+            data = _check_payload(ctx, q, label, ev, mm)
+            if label == list(perms(SEED))[0]:
+                # the same particles in the same order: the written array lives in the row space of the list's table
+                same_rows_same_order(ctx, q, data, me.attrs["df"], f"{q.split('.', 1)[1]}: the array written to the file keeps the particle order of the list",
+                                     ev.node, mm)
 
 
 def o13(ctx):
